@@ -7,13 +7,15 @@ Model D (`Model/Log/*`): `toJson`/`fromJson` are `json.Marshal` / `ChainedLog.Un
 per-payload unmarshallers → `ParseTime`) at tree level, `toRow`/`toCore` are the row `InsertLogs` writes and
 `Logs.ToCore`, `chainLog`/`computeHash` are `Log.ChainLog` / `ChainedLog.ComputeHash`.  The model is the *repaired*
 code (fixes/c13-hydrate-delete-metadata.diff: `HydrateLog` knows `DELETE_METADATA`, its payload decodes `targetId`
-by target type; fixes/c13-parsetime-readable.diff: `ParseTime` refuses what `Format` would print unreadably).
+by target type; fixes/c13-parsetime-readable.diff: `ParseTime` refuses what `Format` would print unreadably;
+fixes/c04-parsetime-utc.diff: `ParseTime` converts to UTC).
 The tie to the Go code — trees, exact bytes, SHA-256, hashes along chains — is the differential of checks/c13.py.
 
 `WF` (Model/Log/Encode.lean) is decidable and says exactly what the decoder preserves:
-* timestamps (`TimeWF`): on a microsecond, calendar fields in range, year 0…9999, zone offset a whole number of
-  minutes below 25 h — `accepted_wf`: every timestamp `ParseTime` accepts is of this kind, so "every timestamp the
-  API accepts" is covered; log dates come from `Now()` and are of this kind with offset 0;
+* timestamps (`TimeWF`): UTC, on a microsecond, calendar fields in range, year 0…9999 — `accepted_wf`: every
+  timestamp `ParseTime` accepts is of this kind (whatever offset up to ±24:60 it was written with: `ParseTime` converts
+  to UTC, `accepted_instant`: keeping the instant), so "every timestamp the API accepts" is covered; log dates come
+  from `Now()` and are of this kind;
 * metadata maps are lists with strictly increasing keys (what a Go map marshals to);
 * a set- or delete-metadata target is an account address under `"ACCOUNT"` or a transaction id in `[0, 2^64)` under
   `"TRANSACTION"` (`strconv.ParseUint(…, 10, 64)`; ids are allocated from 0 upwards).
@@ -22,14 +24,43 @@ The hash function is a parameter: the statements are equational, no collision-fr
 namespace C13
 open LogM
 
-/-- a timestamp on a microsecond is printed and parsed back unchanged, zone offset included -/
+/-- a UTC timestamp on a microsecond is printed and parsed back unchanged -/
 theorem time_roundtrip (t : Time) (wf : TimeWF t) : parseTime (formatTime t) = .ok t :=
   parseTime_formatTime t wf
 
-/-- every timestamp the API accepts (`ParseTime` = `time.Parse(RFC3339Nano)`, rounding to the microsecond, refusal
-of what could not be printed readably) is a well-formed time: so `time_roundtrip` and `roundtrip` cover them all -/
+/-- every timestamp the API accepts (`ParseTime` = `time.Parse(RFC3339Nano)`, rounding to the microsecond, conversion
+to UTC, refusal of what could not be printed readably) is a well-formed time: so `time_roundtrip` and `roundtrip` cover
+them all.  This rests on the calendar arithmetic of the conversion being right for EVERY instant and offset
+(`utc_reading_wf` below). -/
 theorem accepted_wf (s : String) (t : Time) (h : parseTime s = .ok t) : TimeWF t :=
   parseTime_wf s t h
+
+/-- the reading at any offset of any instant (seconds since the epoch, any integer) is a calendar date and a time of day:
+month 1…12, day 1…length of that month in that year (leap years included), hour ≤ 23, minute and second ≤ 59 -/
+theorem utc_reading_wf (secs : Int) (nanos : Nat) (off : Int) :
+    1 ≤ (Time.ofUnix secs nanos off).month ∧ (Time.ofUnix secs nanos off).month ≤ 12 ∧
+    1 ≤ (Time.ofUnix secs nanos off).day ∧
+    (Time.ofUnix secs nanos off).day ≤ daysIn (Time.ofUnix secs nanos off).month (Time.ofUnix secs nanos off).year ∧
+    (Time.ofUnix secs nanos off).hour ≤ 23 ∧ (Time.ofUnix secs nanos off).min ≤ 59 ∧ (Time.ofUnix secs nanos off).sec ≤ 59 ∧
+    (Time.ofUnix secs nanos off).nanos = nanos ∧ (Time.ofUnix secs nanos off).off = off :=
+  ofUnix_valid secs nanos off
+
+/-- … and denotes that instant: days ↔ civil date are inverse to each other for every day number -/
+theorem utc_reading_same_instant (secs : Int) (nanos : Nat) (off : Int) : (Time.ofUnix secs nanos off).unixSec = secs :=
+  unixSec_ofUnix secs nanos off
+
+theorem civil_date_roundtrip (z : Int) :
+    daysFromCivil (civilFromDays z).1 (civilFromDays z).2.1 (civilFromDays z).2.2 = z :=
+  daysFromCivil_civilFromDays z
+
+/-- what `ParseTime` does with the offset the client wrote: the accepted time is the reading AT OFFSET 0 of the same
+instant (the parsed time rounded to the microsecond) -/
+theorem accepted_instant (s : String) (t0 t : Time) (h0 : parseRaw s.toList = .ok t0) (h : parseTime s = .ok t) :
+    t.unixSec = (roundMicro t0).unixSec ∧ t.nanos = (roundMicro t0).nanos ∧ t.off = 0 := by
+  simp only [parseTime, h0] at h
+  split at h
+  · injection h with h; subst h; exact toUTC_instant _
+  · contradiction
 
 /-- … and is therefore written and read back unchanged -/
 theorem accepted_roundtrip (s : String) (t : Time) (h : parseTime s = .ok t) : parseTime (formatTime t) = .ok t :=
@@ -58,12 +89,12 @@ hash only: not on the id or hash the entry carried -/
 theorem hash_covers_content (H : Hash) (prev : Option CLog) (l : Log) (id id' : Int) (h h' : Option (List UInt8)) :
     (chainLog H prev (⟨l, id, h⟩ : CLog).log).hash = (chainLog H prev (⟨l, id', h'⟩ : CLog).log).hash := rfl
 
-/-- the stored row: what `InsertLogs` writes, `Logs.ToCore` turns back into the entry (log dates are UTC:
-`Now()`; `ToCore` converts the date to UTC) -/
-theorem store_roundtrip (ledger : String) (l : CLog) (wf : WF l) (utc : l.log.date.off = 0) :
+/-- the stored row: what `InsertLogs` writes, `Logs.ToCore` turns back into the entry (`ToCore` converts the date to
+UTC, which a well-formed date is already) -/
+theorem store_roundtrip (ledger : String) (l : CLog) (wf : WF l) :
     toCore (toRow ledger l) = .ok l := by
-  obtain ⟨hp, _⟩ := wf
-  simp [toCore, toRow, logType_rt, payload_rt l.log.data hp, toUTC, utc]
+  obtain ⟨hp, hd⟩ := wf
+  simp [toCore, toRow, logType_rt, payload_rt l.log.data hp, toUTC_wf l.log.date hd]
 
 /-- an entry produced by `ChainLog` re-verifies against the log it was chained to -/
 theorem chainLog_verifies (H : Hash) (prev : Option CLog) (l : Log) : verifies H prev (chainLog H prev l) = true := by
@@ -86,7 +117,7 @@ theorem chain_rehash (H : Hash) (ls : List Log) (wf : ∀ l ∈ ls, LogWF l) :
 
 /-- the same through the store: every row of a chain converts back to its entry and re-verifies -/
 theorem chain_store_rehash (H : Hash) (ledger : String) (prev : Option CLog) (ls : List Log)
-    (wf : ∀ l ∈ ls, LogWF l ∧ l.date.off = 0) :
+    (wf : ∀ l ∈ ls, LogWF l) :
     ∀ c ∈ chainFrom H prev ls, toCore (toRow ledger c) = .ok c := by
   induction ls generalizing prev with
   | nil => simp [chainFrom]
@@ -95,7 +126,7 @@ theorem chain_store_rehash (H : Hash) (ledger : String) (prev : Option CLog) (ls
     simp only [chainFrom, List.mem_cons] at hc
     rcases hc with hc | hc
     · subst hc
-      exact store_roundtrip ledger _ (wf l (List.mem_cons_self ..)).1 (wf l (List.mem_cons_self ..)).2
+      exact store_roundtrip ledger _ (wf l (List.mem_cons_self ..))
     · exact ih (some (chainLog H prev l)) (fun x hx => wf x (List.mem_cons_of_mem _ hx)) c hc
 
 /-- ids along a chain: the first entry gets 0 (or the predecessor's id + 1), each next one the previous id + 1 -/
@@ -126,20 +157,27 @@ theorem target_txid_outside_uint64 (tt : String) (n : Int) (h : upper tt = "TRAN
     targetOfJson tt (some (.num n)) = .error (.error "targetId: ParseUint") := by
   simp [targetOfJson, h, out]
 
-/-- `Logs.ToCore` converts the log date to UTC: a date that carried an offset comes back as another reading of
-the same instant (log dates are produced by `Now()`, which is UTC) -/
+/-- the conversion to UTC on a date that carries an offset: another reading of the same instant -/
 example : toUTC ⟨2023, 6, 1, 14, 0, 0, 123456000, 7200⟩ = ⟨2023, 6, 1, 12, 0, 0, 123456000, 0⟩ := by decide
 
-/-- the two kinds of timestamp the unrepaired `ParseTime` accepted although their printed form cannot be parsed
-(year 9999 rounding up; offset `+24:60` printed as `+25:00`): the repaired one refuses them -/
+/-- timestamps `time.Parse` lets through whose printed form could not be parsed back: year 9999 rounding up, and —
+since `ParseTime` converts to UTC — the first hours of year 0000 written east of Greenwich, the last hours of 9999
+written west of it (`-0001-…`, `10000-…`): refused.  The offset `+24:60`, which an earlier repair had to refuse
+(`Format` printed it as `+25:00`), is harmless now: the stored text ends in `Z`. -/
 example : parseTime "9999-12-31T23:59:59.9999995Z" = .error .unreadable := by rfl
-example : parseTime "2023-01-01T00:00:00+24:60" = .error .unreadable := by rfl
+example : parseTime "0000-01-01T00:59:59+01:00" = .error .unreadable := by rfl
+example : parseTime "0000-01-01T01:00:00+01:00" = .ok ⟨0, 1, 1, 0, 0, 0, 0, 0⟩ := by rfl
+example : parseTime "9999-12-31T23:00:00-01:00" = .error .unreadable := by rfl
+example : parseTime "9999-12-31T22:59:59.9999994-01:00" = .ok ⟨9999, 12, 31, 23, 59, 59, 999999000, 0⟩ := by rfl
+example : parseTime "2023-01-01T00:00:00+24:60" = .ok ⟨2022, 12, 30, 23, 0, 0, 0, 0⟩ := by rfl
+example : parseTime "2024-03-01T00:30:00+01:00" = .ok ⟨2024, 2, 29, 23, 30, 0, 0, 0⟩ := by rfl
+example : parseTime "2023-12-31T23:59:59.9999995-00:01" = .ok ⟨2024, 1, 1, 0, 1, 0, 0, 0⟩ := by rfl
 example : parseRaw "10000-01-01T00:00:00Z".toList = .error .syntax := by rfl
 example : parseRaw "2023-01-01T00:00:00+25:00".toList = .error .range := by rfl
 
 /-! ### non-vacuity: concrete well-formed entries of every kind, and a chain -/
 
-def ts1 : Time := ⟨2023, 6, 1, 14, 0, 0, 123456000, 7200⟩     -- 2023-06-01T14:00:00.123456+02:00
+def ts1 : Time := ⟨2023, 6, 1, 12, 0, 0, 123456000, 0⟩     -- 2023-06-01T14:00:00.123456+02:00 as `ParseTime` returns it
 def now1 : Time := ⟨2023, 6, 1, 12, 0, 0, 123456000, 0⟩
 def tx1 : Tx :=
   ⟨some [⟨"world", "users:001", 1180591620717411303424, "USD/2"⟩], some [("<é>", "& "), ("k", "v")], ts1, "ref", 5, false⟩
@@ -151,15 +189,16 @@ def logDelAcc : Log := ⟨.delMeta "ACCOUNT" (.account "users:001") "k", now1, "
 def logDelTx : Log := ⟨.delMeta "TRANSACTION" (.tx 9007199254740993) "k", now1, "ik-2"⟩
 
 example : TimeWF ts1 ∧ TimeWF now1 := by decide
-example : ∀ l ∈ [logNew, logRevert, logSetAcc, logSetTx, logDelAcc, logDelTx], LogWF l ∧ l.date.off = 0 := by decide
+example : ∀ l ∈ [logNew, logRevert, logSetAcc, logSetTx, logDelAcc, logDelTx], LogWF l := by decide
 example (H : Hash) : verifyStored H none ((chainLogs H [logNew, logRevert, logSetAcc, logSetTx, logDelAcc, logDelTx]).map toJson) = true :=
   chain_rehash H _ (by decide)
 example (id : Int) (h : Option (List UInt8)) : fromJson (toJson ⟨logDelTx, id, h⟩) = .ok ⟨logDelTx, id, h⟩ :=
   roundtrip _ (show LogWF logDelTx by decide)
-/-- a timestamp with seven fraction digits and an offset is accepted, rounded, and then round-trips -/
+/-- a timestamp with seven fraction digits and an offset is accepted, rounded, converted to UTC, and then round-trips -/
 example : parseTime "2023-06-01T14:00:00.1234564+02:00" = .ok ts1 := by rfl
-/-- the ill-formed are really excluded: a time off the microsecond is not `TimeWF`; an unsorted map is not `MapWF` -/
+/-- the ill-formed are really excluded: a time off the microsecond or carrying an offset is not `TimeWF`; an unsorted map is not `MapWF` -/
 example : ¬ TimeWF { ts1 with nanos := 123456789 } := by decide
+example : ¬ TimeWF ⟨2023, 6, 1, 14, 0, 0, 123456000, 7200⟩ := by decide
 example : ¬ MapWF [("b", "1"), ("a", "2")] := by decide
 example : ¬ PayloadWF (.setMeta "TRANSACTION" (.tx 18446744073709551616) none) := by decide
 
